@@ -555,9 +555,22 @@ def _fgdp(ctx, repo):
     ctx.check(ok, "R-HARD", "distribute hands (graph, agents, must_host, memory, load) to the model builder", d, call[0] if call else d.node, "")
     # result
     _result(ctx, f, "comp_dist")
-    ok = "comp_dist = fixed_dist" in t and "agt_vars = [i for i, ka in xs if ka == k and value(xs[i, ka]) == 1]" in t \
-        and "agt_rels = [j for j, ka in fs if ka == k and value(fs[j, ka]) == 1]" in t \
-        and "comp_dist.host_on_agent(k, agt_vars)" in t and "comp_dist.host_on_agent(k, agt_rels)" in t
+    # for every agent k: host_on_agent(k, the computations whose solved variable for k is 1), once for the variables (xs) and once for the factors (fs);
+    # the selection may be named first or written in the call, with any comprehension variable names
+    from ..normalise import canon as _canon
+    hosts = [c for c in ast.walk(f.node) if isinstance(c, ast.Call) and norm(c.func) == "comp_dist.host_on_agent" and len(c.args) == 2]
+    ffr = FuncFacts(f.node)
+    got_sel = []
+    for c in hosts:
+        g = [x for x in ffr.guards_at(c) if x.kind == "for"]
+        kv = norm(g[-1].node.target) if g else None
+        sel = c.args[1]
+        if isinstance(sel, ast.Name) and g:
+            defs = [s_.value for s_ in g[-1].node.body if isinstance(s_, ast.Assign) and norm(s_.targets[0]) == sel.id]
+            sel = defs[0] if len(defs) == 1 else sel
+        got_sel.append((norm(g[-1].test) if g else None, norm(c.args[0]) == kv, _canon(sel) if isinstance(sel, ast.ListComp) else norm(sel)))
+    want_sel = sorted(("agents_names", True, _canon(ast.parse(f"[i for i, ka in {d_} if ka == k and value({d_}[i, ka]) == 1]", mode="eval").body)) for d_ in ("xs", "fs"))
+    ok = "comp_dist = fixed_dist" in t and sorted(got_sel) == want_sel and (not hosts or all(norm(ffr.guards_at(c)[-1].node.target) == "k" for c in hosts if ffr.guards_at(c)))
     ctx.check(ok, "R-RESULT", "result = pinned computations + every free computation on the agent whose variable is 1", f, f.node, "")
 
 
